@@ -123,9 +123,14 @@ func eq(a, b Term) Term {
 	if a.S == b.S {
 		return tTrue
 	}
+	if isStrLit(a.S) && isStrLit(b.S) {
+		return tFalse // distinct string literals
+	}
 	a, b = coerce(a, b)
 	return app(SBool, "=", a, b)
 }
+
+func isStrLit(s string) bool { return s == "str.empty" || strings.HasPrefix(s, "lit!") }
 
 func ite(c, a, b Term) Term {
 	if c.S == "true" {
@@ -501,7 +506,44 @@ func declaredSymbol(cmd string) string {
 // buildQuery renders the SMT-LIB text that decides obligation ob. Only the cone of influence of the goal is
 // emitted: assertions that (transitively) share an uninterpreted symbol with the goal. Dropping assumptions is
 // sound for unsat answers; for sat answers the dropped part shares no symbol with the kept part.
-func (l *Log) buildQuery(ob *Obligation, extraPrelude string) string {
+// definedSymbol: for "(assert (= sym rhs))" and "(assert (=> c (= sym rhs)))" the symbol being defined.
+func definedSymbol(text string) string {
+	t := strings.TrimPrefix(text, "(assert ")
+	if strings.HasPrefix(t, "(=> ") {
+		// skip the guard (one token or one parenthesised group)
+		r := t[4:]
+		if strings.HasPrefix(r, "(") {
+			d := 0
+			for i := 0; i < len(r); i++ {
+				if r[i] == '(' {
+					d++
+				} else if r[i] == ')' {
+					d--
+					if d == 0 {
+						r = strings.TrimSpace(r[i+1:])
+						break
+					}
+				}
+			}
+		} else if j := strings.IndexByte(r, ' '); j > 0 {
+			r = r[j+1:]
+		}
+		t = r
+	}
+	if !strings.HasPrefix(t, "(= ") {
+		return ""
+	}
+	r := t[3:]
+	if strings.HasPrefix(r, "(") {
+		return ""
+	}
+	if j := strings.IndexAny(r, " )"); j > 0 {
+		return r[:j]
+	}
+	return ""
+}
+
+func (l *Log) buildQuery(ob *Obligation, extraPrelude string, focused bool) string {
 	var goal string
 	if ob.Smoke {
 		goal = "(assert " + ob.Formula.S + ")"
@@ -542,7 +584,41 @@ func (l *Log) buildQuery(ob *Obligation, extraPrelude string) string {
 	rel := map[string]bool{}
 	symbolsOf(goal, rel)
 	included := make([]bool, len(secs))
-	for changed := true; changed; {
+	if focused {
+		// focused slice: follow definitions ("(= sym rhs)", "(=> c (= sym rhs))") of the symbols the goal mentions,
+		// then add every other fact all of whose symbols are already relevant. Sound for unsat answers only.
+		for changed := true; changed; {
+			changed = false
+			for i, s := range secs {
+				if included[i] || s.decl != "" {
+					continue
+				}
+				if d := definedSymbol(s.text); d != "" && rel[d] {
+					included[i] = true
+					changed = true
+					for sym := range s.syms {
+						rel[sym] = true
+					}
+				}
+			}
+		}
+		for i, s := range secs {
+			if included[i] || s.decl != "" {
+				continue
+			}
+			all := len(s.syms) > 0
+			for sym := range s.syms {
+				if !rel[sym] {
+					all = false
+					break
+				}
+			}
+			if all {
+				included[i] = true
+			}
+		}
+	}
+	for changed := !focused; changed; {
 		changed = false
 		for i, s := range secs {
 			if included[i] || s.decl != "" {
@@ -720,11 +796,33 @@ func discharge(l *Log, extraPrelude string, obs []*Obligation, o dischargeOpts) 
 		go func(ob *Obligation) {
 			defer wg.Done()
 			defer func() { <-sem }()
-			q := l.buildQuery(ob, extraPrelude)
 			file := filepath.Join(o.dir, sanitize(ob.Name)+".smt2")
 			if len(file) > 200 {
 				file = file[:180] + fmt.Sprintf("_%d.smt2", ob.index)
 			}
+			if !ob.Smoke {
+				// stage 1: focused slice (definitions of the goal's symbols + facts over them); unsat there is final
+				fq := l.buildQuery(ob, extraPrelude, true)
+				ff := strings.TrimSuffix(file, ".smt2") + ".focused.smt2"
+				_ = os.WriteFile(ff, []byte(fq), 0o644)
+				_ = os.WriteFile(ff+".cvc5", []byte(strings.Replace(fq, "(set-logic ALL)", "(set-logic AUFNIRA)", 1)), 0o644)
+				ft := 4
+				if o.timeoutS < ft {
+					ft = o.timeoutS
+				}
+				best, all := race(ff, ft, o.agree, true)
+				if best.status == "unsat" {
+					ob.SmtFile = ff
+					ob.Result, ob.Solver, ob.Ms, ob.Output = best.status, best.solver, best.ms, best.out
+					for _, r := range all {
+						if r.status == "unsat" {
+							ob.Agree = append(ob.Agree, r.solver)
+						}
+					}
+					return
+				}
+			}
+			q := l.buildQuery(ob, extraPrelude, false)
 			_ = os.WriteFile(file, []byte(q), 0o644)
 			// cvc5: a logic without the strings theory, so that the str.* symbols of the prelude are free
 			_ = os.WriteFile(file+".cvc5", []byte(strings.Replace(q, "(set-logic ALL)", "(set-logic AUFNIRA)", 1)), 0o644)
